@@ -29,6 +29,12 @@ pub struct Case {
     /// does the subscriber read right after subscribing (it is handed the most recent change)
     pub read_at_subscribe: bool,
     pub seed: u64,
+    /// before snapshot i is published, this many callers ask the node for a replica selection at once (0 = none; the
+    /// selector's request queue holds 100, so more than that keep the membership watcher waiting for the selector)
+    pub busy: Vec<usize>,
+    /// snapshot i+1 is published by a task of its own, spawned right after snapshot i was published, after this many
+    /// yields: it lands while the node is still busy with snapshot i
+    pub next_by_task: Vec<Option<usize>>,
 }
 
 pub struct C16;
@@ -58,7 +64,7 @@ impl Prop for C16 {
     }
 
     fn width(&self) -> usize {
-        96
+        200
     }
 
     fn shrink_budget(&self) -> usize {
@@ -70,8 +76,9 @@ impl Prop for C16 {
         let mut cur = Snapshot::new();
         let mut snapshots = vec![];
         for _ in 0..n {
-            // mutate the previous snapshot: joins, leaves, address changes
-            let changes = 1 + src.below(3);
+            // mutate the previous snapshot: joins, leaves, address changes; one snapshot in six repeats the previous
+            // one (the membership layer publishes whenever anything about any member changes, also about itself)
+            let changes = if src.chance(1, 6) { 0 } else { 1 + src.below(3) };
             for _ in 0..changes {
                 let id = 2 + src.below(5) as u8;
                 match src.weighted(&[4, 3, 1]) {
@@ -98,7 +105,12 @@ impl Prop for C16 {
         let subscribe_at = if src.chance(1, 2) { 0 } else { src.below(n + 1) };
         let drain_all = src.chance(1, 2);
         let drain = (0..n).map(|_| drain_all || src.chance(1, 2)).collect();
-        Case { snapshots, back_to_back, subscribe_at, drain, read_at_subscribe: src.chance(1, 2), seed: src.word() }
+        let read_at_subscribe = src.chance(1, 2);
+        let seed = src.word();
+        let crowded = src.chance(1, 3);
+        let busy: Vec<usize> = (0..n).map(|_| if crowded && src.chance(1, 2) { *src.pick(&[101usize, 99, 100, 130, 160, 250]) } else { 0 }).collect();
+        let next_by_task = (0..n).map(|i| if (busy[i] > 0 && src.chance(2, 3)) || src.chance(1, 16) { Some(src.below(4)) } else { None }).collect();
+        Case { snapshots, back_to_back, subscribe_at, drain, read_at_subscribe, seed, busy, next_by_task }
     }
 
     fn run(&self, case: &Case) -> Outcome {
@@ -112,20 +124,22 @@ impl Prop for C16 {
             "subscribe_before_snapshot": case.subscribe_at,
             "subscriber_reads_after_snapshot": case.drain,
             "subscriber_reads_right_after_subscribing": case.read_at_subscribe,
+            "concurrent_selection_requests_before_snapshot": case.busy,
+            "next_snapshot_published_by_a_task_after_yields": case.next_by_task,
         })
     }
 
     fn rule(&self) -> &'static str {
         "one real DatacakeNode (id 1); 1-10 membership snapshots over ids 2-6 (joins, leaves, rejoins, address \
          changes, addresses of an id's own or from a pool of two that several ids may hold at once or one after the other) published where chitchat would publish them (hook H-members), some back to back so the node's own \
-         publisher skips one; a component subscribes via membership_changes() at a generated moment and reads after a \
+         publisher skips one, some repeating the previous one, some published while 99-250 callers keep the node's selector busy (its request queue holds 100)          and followed at once by the next snapshot from a task of its own (it lands while the node is still working on the previous one); a component subscribes via membership_changes() at a generated moment and reads after a \
          generated subset of the snapshots, always reading once more at the end; it applies each change like the \
          replication services do (remove `left` ids, then insert `joined`); oracle 1: each non-empty delta it is handed equals \
          the difference between two of the snapshots published so far (in order: not before the position the previous delta led to), \
          `left` carrying the OLD address, no node named twice; \
          oracle 2: at the end it holds exactly the other members of the final snapshot - a violation for a subscriber that subscribed \
-         first and read after every single snapshot, the recorded finding `watch-latest-only` for one that subscribed late or let two \
-         snapshots pass between two reads; non-trivial = >=1 leave or \
+         first and read after every single snapshot, the recorded finding `watch-latest-only` for one that subscribed late or let another \
+         snapshot follow a membership-changing one between two reads (only then can an event have been overwritten); non-trivial = >=1 leave or \
          address change"
     }
 }
@@ -172,6 +186,10 @@ struct Subscriber<'a> {
     chain: isize,
     /// snapshots published since the subscriber last read (or subscribed)
     unread: usize,
+    /// a snapshot that changed the membership was published since the subscriber last read
+    unread_change: bool,
+    /// ... and another snapshot was published after it: the event of the former may have been overwritten
+    overwritable: bool,
     /// the schedule alone allows that an event was overwritten before the subscriber read it
     may_have_missed: bool,
     first_wrong: Option<String>,
@@ -187,10 +205,30 @@ impl<'a> Subscriber<'a> {
     }
 
     fn begin_read(&mut self) {
-        if self.unread >= 2 {
+        // Events travel on a latest-value channel. An event can only have been replaced before this read if a snapshot
+        // that changed the membership was followed by another snapshot (changing or not: the node may publish an
+        // empty event for it). Snapshots that repeat their predecessor produce no event worth keeping.
+        if self.overwritable {
             self.may_have_missed = true;
         }
         self.unread = 0;
+        self.unread_change = false;
+        self.overwritable = false;
+    }
+
+    /// bookkeeping for snapshot `i` being handed to the membership layer
+    fn publish(&mut self, i: usize, subscribed: bool) {
+        let changing = self.snap(i as isize - 1) != self.snap(i as isize);
+        self.published = i as isize;
+        if subscribed {
+            self.unread += 1;
+            if self.unread_change {
+                self.overwritable = true;
+            }
+            if changing {
+                self.unread_change = true;
+            }
+        }
     }
 
     fn handed(&mut self, delta: &MembershipChange, when: &str) {
@@ -234,12 +272,21 @@ impl<'a> Subscriber<'a> {
 async fn run(case: &Case) -> Outcome {
     let a = addr(ME, 0);
     let cfg = ConnectionConfig::new(a, a, Vec::<String>::new());
-    let node = DatacakeNodeBuilder::<DCAwareSelector>::new(ME, cfg).connect().await.expect("connect");
+    let node = std::sync::Arc::new(DatacakeNodeBuilder::<DCAwareSelector>::new(ME, cfg).connect().await.expect("connect"));
     tokio::time::sleep(Duration::from_millis(10)).await;
+    let members_of = |snap: &Snapshot| -> Vec<ClusterMember> {
+        let mut members: Vec<ClusterMember> = snap.iter().map(|(id, v)| member(*id, *v)).collect();
+        members.push(member(ME, 0));
+        members
+    };
+    let mut tasks = vec![];
+    let mut published_by_task = false;
+    let mut crowded = false;
+    let mut by_task = false;
 
     let n = case.snapshots.len();
     let mut stream = None;
-    let mut sub = Subscriber { case, held: BTreeMap::new(), published: -1, chain: -1, unread: 0, may_have_missed: case.subscribe_at > 0, first_wrong: None };
+    let mut sub = Subscriber { case, held: BTreeMap::new(), published: -1, chain: -1, unread: 0, unread_change: false, overwritable: false, may_have_missed: case.subscribe_at > 0, first_wrong: None };
     let mut observed = 0usize;
     let mut pending_unconsumed = false;
     let mut skipped = false;
@@ -253,6 +300,8 @@ async fn run(case: &Case) -> Outcome {
         if i == case.subscribe_at {
             stream = Some(node.membership_changes());
             sub.unread = 0;
+            sub.unread_change = false;
+            sub.overwritable = false;
             if case.read_at_subscribe {
                 // a new subscriber may be handed the most recent event at once
                 let st = stream.as_mut().unwrap();
@@ -266,13 +315,41 @@ async fn run(case: &Case) -> Outcome {
         if i == n {
             break;
         }
-        let snap = &case.snapshots[i];
-        let mut members: Vec<ClusterMember> = snap.iter().map(|(id, v)| member(*id, *v)).collect();
-        members.push(member(ME, 0));
-        node.verif_set_members(members);
-        sub.published = i as isize;
-        if stream.is_some() {
-            sub.unread += 1;
+        if !published_by_task {
+            // callers that keep the selector busy: each asks for a selection; they are queued ahead of everything
+            // the snapshot sets in motion
+            if case.busy[i] > 0 {
+                crowded = true;
+                let h = node.handle();
+                for _ in 0..case.busy[i] {
+                    let h = h.clone();
+                    tasks.push(tokio::spawn(async move {
+                        let _ = h.select_nodes(datacake_node::Consistency::One).await;
+                    }));
+                }
+            }
+            node.verif_set_members(members_of(&case.snapshots[i]));
+            sub.publish(i, stream.is_some());
+        }
+        published_by_task = false;
+        // the next snapshot arrives from a task of its own while the node is busy with this one; the subscriber
+        // cannot read in between (it would be the subscription point otherwise)
+        if let (Some(yields), true) = (case.next_by_task[i], i + 1 < n && i + 1 != case.subscribe_at) {
+            by_task = true;
+            let node2 = node.clone();
+            let members = members_of(&case.snapshots[i + 1]);
+            tasks.push(tokio::spawn(async move {
+                for _ in 0..yields {
+                    tokio::task::yield_now().await;
+                }
+                node2.verif_set_members(members);
+            }));
+            sub.publish(i + 1, stream.is_some());
+            published_by_task = true;
+            // settle: everything the two snapshots set in motion runs before the harness goes on
+            tokio::time::sleep(Duration::from_millis(1)).await;
+            pending_unconsumed = false;
+            continue;
         }
         let b2b = case.back_to_back[i] && i + 1 < n;
         if b2b {
@@ -305,7 +382,13 @@ async fn run(case: &Case) -> Outcome {
             }
         }
     }
-    node.shutdown().await;
+    for t in tasks {
+        let _ = t.await;
+    }
+    match std::sync::Arc::try_unwrap(node) {
+        Ok(node) => node.shutdown().await,
+        Err(_) => return Err(Fail { signature: "harness".into(), message: "a task still holds the node".into() }),
+    }
 
     if let Some(msg) = sub.first_wrong.take() {
         return Err(Fail { signature: "delta-wrong".into(), message: msg });
@@ -318,7 +401,7 @@ async fn run(case: &Case) -> Outcome {
             sub.held,
             expect,
             case.subscribe_at,
-            if saw_everything { "it subscribed first and read after every single snapshot" } else { "it subscribed late or let two snapshots pass between two reads" }
+            if saw_everything { "it subscribed first and no event it could be handed was ever replaced before it read" } else { "it subscribed late or let another snapshot follow a membership-changing one between two reads" }
         );
         if !saw_everything {
             // deltas travel on a latest-value channel: a late or slow subscriber can never recover what it missed
@@ -344,6 +427,12 @@ async fn run(case: &Case) -> Outcome {
     }
     if skipped {
         labels.push("publisher_skipped");
+    }
+    if crowded {
+        labels.push("snapshot_while_the_selector_is_crowded");
+    }
+    if by_task {
+        labels.push("snapshot_landing_while_the_previous_one_is_processed");
     }
     if leave_or_change {
         labels.push("leave_or_address_change");
